@@ -117,6 +117,9 @@ func (fx *FuncCtx) entryFamilies() []famInst {
 }
 
 func (fx *FuncCtx) visible(rid Term) bool {
+	if strings.HasPrefix(rid.S, "alloc_arrview") {
+		fx.unsupportedf("store through a slice of an array (aliasing with the array is not modelled)")
+	}
 	return !isAllocTerm(rid)
 }
 
